@@ -539,10 +539,12 @@ empty @is_you(int a) { write("\\u{e9}x".length); write("abc".length); write("".l
 # comparisons against literals outside the range of one operand's TYPE (bytes, bools as ints, lengths): only the value decides
 FOLD_PROGRAMS.append(('compare_with_out_of_range_literal', '''empty @is_you(byte x, byte y, int i) { string s = "abc"; bool t = i > 0;
   write((x + y) < 256); write((x * y) > 255); write((0 - x) < 0); write((x - y) >= 0); write(x < 256); write(x > (0 - 1)); write((x is int) == 300); write(x + y == 300);
+  write(x == 511); write(x != 0 - 1); write(x == 256); write(256 == x); write(x == 255); write(y != 0 - 256); write(x == y + 256); write(511 != x);
   write(s.length < 0); write(s.length >= 0); write((t is int) < 2); write((t is int) > 1); write((i is byte) < 256); write((i is byte) >= 0); write(((x + y) is byte) < (x + y));
   if ((x + y) < 256) { write('T'); } else { write('F'); } try { !truth_is_defeat((x * y) > 255); write('n'); } undo { write('u'); } }''',
                       '''empty @is_you(byte x, byte y, int i, int k256, int k255, int k0, int km1, int k300, int k2, int k1) { string s = "abc"; bool t = i > 0;
   write((x + y) < k256); write((x * y) > k255); write((k0 - x) < k0); write((x - y) >= k0); write(x < k256); write(x > km1); write((x is int) == k300); write(x + y == k300);
+  write(x == k256 + k255); write(x != km1); write(x == k256); write(k256 == x); write(x == k255); write(y != k0 - k256); write(x == y + k256); write(k256 + k255 != x);
   write(s.length < k0); write(s.length >= k0); write((t is int) < k2); write((t is int) > k1); write((i is byte) < k256); write((i is byte) >= k0); write(((x + y) is byte) < (x + y));
   if ((x + y) < k256) { write('T'); } else { write('F'); } try { !truth_is_defeat((x * y) > k255); write('n'); } undo { write('u'); } }''',
                       [[str(x), str(y), str(i), '256', '255', '0', '-1', '300', '2', '1'] for x, y, i in ((1, 2, 5), (200, 100, -3), (255, 255, 256), (0, 0, 0), (16, 16, 300), (150, 150, 1))]))
